@@ -143,3 +143,115 @@ for meth, addr, gm in (('move_to_head', '/g_head', '_move_node_to_head'),
                        ('move_to_tail', '/g_tail', '_move_node_to_tail')):
     nc('Node.' + meth, {'self': 'self', 'target': ['none', 'ref:AbstractGroup']}, moved_to(addr, gm),
        [('self', 'group')], inline=('AbstractGroup.' + gm,))
+
+
+# ---- constructors that send: AbstractGroup.__init__, Synth.__init__ ---------------------------------
+# A FRESH node id is taken from the target's server (one call of _next_node_id), the object joins the
+# target's group (head/tail actions: the target itself; before/after/replace: the target's group), and
+# exactly one creation command goes out through that server's address:
+#     group:  creation_cmd(), id, add action number, target id
+#     synth:  '/s_new', definition name, id, add action number, target id, then the converted arguments
+ACT = z3.Int('add_action_id')
+
+
+def nc2_getattr(eng, obj, name, st, node):
+    r = h_getattr(eng, obj, name, st, node)
+    if r is not None:
+        return r
+    if obj.k == 'obj' and obj.oid == 'param' and name == '_as_target':
+        return [(st, V('func', py=('spec', lambda eng, a, kw, st, node: [(st, V('ref', cls='Target', oid='target'))])))]
+    if obj.k == 'obj' and obj.oid == 'param' and name == '_as_osc_arg_list':
+        def conv(eng, a, kw, st, node, _o=obj):
+            return [(st, vlist([V('any', z3.Const('arg0', VV_Any)), V('any', z3.Const('arg1', VV_Any))]))]
+        return [(st, V('func', py=('spec', conv)))]
+    if obj.k == 'obj' and str(obj.oid).endswith('.server') and name == '_next_node_id':
+        def nid(eng, a, kw, st, node, _o=obj):
+            v = vint(eng.fresh('fresh_node_id', z3.IntSort()))
+            st.trace.append(('next-id', _o.oid, v))
+            return [(st, v)]
+        return [(st, V('func', py=('spec', nid)))]
+    if obj.k == 'obj' and obj.oid == 'super' and name == '__init__':
+        def sup(eng, a, kw, st, node):
+            st.trace.append(('node-init',))
+            return [(st, NONE)]
+        return [(st, V('func', py=('spec', sup)))]
+    if obj.k == 'class' and name == 'add_actions':
+        return [(st, V('obj', oid='add_actions'))]
+    if obj.k == 'ref' and obj.oid == 'self' and name == 'creation_cmd':
+        return [(st, V('func', py=('spec', lambda eng, a, kw, st, node: [(st, V('obj', oid='creation-cmd'))])))]
+    return None
+
+
+from vf.pyvc import values as _VV
+VV_Any = _VV.Any
+
+
+def nc2_getitem(eng, obj, idx, st, node):
+    if obj.k == 'obj' and obj.oid == 'add_actions':
+        st.pc.append(z3.And(ACT >= 0, ACT <= 4))
+        return [(st, vint(ACT))]
+    return None
+
+
+def nc2_builtin(eng, name, args, kwargs, st, node):
+    if name == 'super' and not args:
+        return [(st, V('obj', oid='super'))]
+    return None
+
+
+def node_param(eng, selfv, args, kwargs, st, node):
+    return [(st, V('obj', oid='param', extra={'of': args[0]}))]
+
+
+def traced2(name):
+    def pol(eng, selfv, args, kwargs, st, node):
+        st.trace.append((name, tuple(args)))
+        return [(st, NONE)]
+    return pol
+
+
+def ctor_post(kind):
+    def post(c):
+        ids = [e for e in c.trace if e[0] == 'next-id']
+        s = [e for e in c.trace if e[0] == 'send_msg']
+        if len(ids) != 1 or len(s) != 1 or ids[0][1] != 'target.server' or s[0][1] != 'addr-of:target.server':
+            return z3.BoolVal(False)
+        nid = ids[0][2]
+        a = s[0][2]
+        me = c.post.self
+        g = c.post.self.v('group')
+        tgt_group = same_any(g, 'target.group')
+        tgt_itself = g.k == 'ref' and g.oid == 'target'
+        head = 4 if kind == 'group' else 5
+        if len(a) < head:
+            return z3.BoolVal(False)
+        if kind == 'group':
+            shape = a[0].k == 'obj' and a[0].oid == 'creation-cmd' and len(a) == 4
+            idv, actv, tgtv = a[1], a[2], a[3]
+        else:
+            shape = (a[0].k == 'str' and a[0].py == '/s_new' and a[1] is c._params['def_name'] and len(a) == 7
+                     and a[5].k == 'any' and a[6].k == 'any' and str(a[5].z) == 'arg0' and str(a[6].z) == 'arg1')
+            idv, actv, tgtv = a[2], a[3], a[4]
+        if not shape or idv.k != 'int' or actv.k != 'int' or tgtv.k != 'int':
+            return z3.BoolVal(False)
+        return z3.And(idv.z == nid.z, me.node_id == nid.z,                 # the fresh id, in the object and in the command
+                      actv.z == ACT, tgtv.z == c.pre.target.node_id if False else tgtv.z == z3.Int('target.node_id'),
+                      z3.If(ACT < 2, z3.BoolVal(bool(tgt_itself)), z3.BoolVal(bool(tgt_group))))
+    return post
+
+
+CT_FIELDS = {'AbstractGroup': dict(NODE, def_name='any'), 'Synth': dict(NODE, def_name='any'), 'Target': NODE}
+for qual, kind, params in (('AbstractGroup.__init__', 'group', {'self': 'self', 'target': 'any', 'add_action': 'any', 'register': 'bool'}),
+                           ('Synth.__init__', 'synth', {'self': 'self', 'def_name': 'any', 'args': 'any', 'target': 'any',
+                                                        'add_action': 'any', 'register': 'bool'})):
+    cls = qual.split('.')[0]
+    contract(F, qual, props=('C17', 'C16'), params=params,
+             ensures=[('fresh-id;joins-the-right-group;one-creation-command-in-reference-order', ctor_post(kind))],
+             modifies=[('self', 'server'), ('self', 'node_id'), ('self', 'group'), ('self', 'def_name')],
+             fields=CT_FIELDS, hooks={'getattr': nc2_getattr, 'getitem': nc2_getitem, 'builtin': nc2_builtin},
+             policies={'sc3/synth/_graphparam.py::node_param': node_param,
+                       cls + '._init_register': traced2('register'), 'Node._init_register': traced2('register'),
+                       'Node.__init__': traced2('node-init'), cls + '.__init__@super': traced2('node-init')},
+             class_modules={k: F for k in CT_FIELDS}, native=False,
+             note='the conversions gpp.node_param(...)._as_target() / _as_osc_arg_list() are opaque (two converted '
+                  'arguments stand for the argument list); the add action is any entry of the class table (0..4)')
